@@ -77,10 +77,11 @@ func checkC31(c *Ctx) (string, []string) {
 			}
 			bad := ""
 			count := 0
-			for x := int64(0); x < 5 && bad == ""; x++ {
-				for y := int64(0); y < 5 && bad == ""; y++ {
-					for z := int64(0); z < 5 && bad == ""; z++ {
-						for t := int64(0); t < 5 && bad == ""; t++ {
+			dom := c.Deep(5, 8)
+			for x := int64(0); x < dom && bad == ""; x++ {
+				for y := int64(0); y < dom && bad == ""; y++ {
+					for z := int64(0); z < dom && bad == ""; z++ {
+						for t := int64(0); t < dom && bad == ""; t++ {
 							l := [3]int64{x, y, z}
 							got, ok := astEval(p.TypesInfo, e, func(a ast.Expr) (astVal, bool) {
 								if id, ok := a.(*ast.Ident); ok && id.Name == tName {
